@@ -84,8 +84,9 @@ type c18Ref struct {
 
 // c18Org is what go-containerregistry makes of spec.package (an oracle for the model).
 type c18Org struct {
-	Reg string `json:"reg"`
-	Org string `json:"org"`
+	Reg  string `json:"reg"`  // ref.Context().RegistryStr()
+	Repo string `json:"repo"` // ref.Context().RepositoryStr(); the model computes the organisation (firstSeg)
+	Org  string `json:"org"`  // first path element of Repo: used for the class name only, the model does not read it
 }
 
 type c18PR struct {
@@ -300,7 +301,7 @@ func c18ParseOrg(pkg string) *c18Org {
 		return nil
 	}
 	c := ref.Context()
-	return &c18Org{Reg: c.RegistryStr(), Org: strings.Split(c.RepositoryStr(), "/")[0]}
+	return &c18Org{Reg: c.RegistryStr(), Repo: c.RepositoryStr(), Org: strings.Split(c.RepositoryStr(), "/")[0]}
 }
 
 // c18CtrlRef is the controller reference meta.AsController(meta.TypedReferenceTo(owner, gvk))
@@ -600,6 +601,9 @@ func c18Run(s c18Scn) (c18Obs, []Mon) {
 			ms.Allow = nil // no allow-list: nothing is covered
 		}
 		mons = append(mons, c18MonValidate(ms, rej, err)...)
+		if err == nil && p == "" && s.Ctx != "done" {
+			mons = append(mons, c18MonIndependent(mode, s.Allow, s.Requests, rej)...)
+		}
 		return obs, mons
 	}
 
@@ -726,6 +730,11 @@ func c18Cls(s c18Scn, obs c18Obs) string {
 		}
 		nsub := 0
 		for _, q := range s.Requests {
+			for _, n := range q.N {
+				if strings.Contains(n, "/") && special == "" {
+					special = "/slash-in-name"
+				}
+			}
 			for _, r := range q.R {
 				if strings.Contains(r, "/") && special == "" {
 					special = "/subresource"
@@ -794,7 +803,7 @@ func c18Cls(s c18Scn, obs c18Obs) string {
 				if m.UID == t.UID || m.Family != t.Family {
 					continue
 				}
-				if t.Org != nil && m.Org != nil && *t.Org == *m.Org {
+				if t.Org != nil && m.Org != nil && t.Org.Reg == m.Org.Reg && t.Org.Org == m.Org.Org {
 					same = true
 				} else {
 					cross = true
